@@ -4,6 +4,8 @@ from __future__ import annotations
 
 import json
 
+from hypothesis import strategies as st
+
 from vlib import asts, ref, refconst
 from vlib.asts import depth_of, rows_of
 from vlib.interp import mk_type, mk_value
@@ -17,7 +19,9 @@ RULE = (
     "value passes the reference constant validator over JSON (tag in range, field count and field types equal the "
     "variant row after reader normalisation, std constants carry matching type / defining extension / complete "
     "element values + element type, array size == #elements); (c) helper constructors give the right tag/sum type; "
-    "(d) Const(v) offers ConstKind(type) on its static port and the LoadConst built by DfBase.load outputs it. "
+    "(d) Const(v) offers ConstKind(type) on its static port and the LoadConst built by DfBase.load outputs it, also "
+    "when the constant is loaded after another constant and its load were deleted (node indices reused); the list passed "
+    "to Left / Right stays the caller's. "
     "Non-trivial = nesting depth >= 2 or a collection constant; distinct by canonical JSON."
 )
 ASSUMPTIONS = ["integer constants are within the range of their width (unsigned)", "no constants of linear / variable / alias types (no such values exist)"]
@@ -85,6 +89,27 @@ def check(case) -> list[Fail]:
         interp.ONE_SHOT[0] = False
     if dump(x2._to_serial_root()) != e or dump(x2.type_()._to_serial_root()) != got_t:
         fails.append(Fail("iterable-arguments", k, "value built from one-shot iterables differs from the one built from lists"))
+    # Left / Right compute their type from the values given: the list the caller passed stays the caller's
+    if k in ("left", "right"):
+        mine = [mk_value(u) for u in v["vs"]]
+        y = val.Left(mine, [mk_type(t) for t in v["r"]]) if k == "left" else val.Right([mk_type(t) for t in v["l"]], mine)
+        mine.append(val.TRUE)
+        ey = dump(y._to_serial_root())
+        if ey != e:
+            fails.append(Fail("argument-list-aliased", k, "appending to the list that was passed to the constructor changed the constant"))
+    # a constant loaded after another one was deleted (its node index is free again) is typed by itself
+    if "v0" in case:
+        d2 = Dfg()
+        l0 = d2.load(mk_value(case["v0"]))
+        c0 = [n for n, dta in d2.hugr.nodes() if isinstance(dta.op, ops.Const)]
+        d2.hugr.delete_node(l0)
+        for n in c0:
+            d2.hugr.delete_node(n)
+        l1 = d2.load(mk_value(v))
+        lop1 = d2.hugr[l1].op
+        c1 = [n for n, dta in d2.hugr.nodes() if isinstance(dta.op, ops.Const)]
+        if not (isinstance(lop1, ops.LoadConst) and dump(lop1.type_._to_serial_root()) == want_t and len(c1) == 1 and dump(d2.hugr.port_type(l1.out(0))._to_serial_root()) == want_t):
+            fails.append(Fail("load", k + ":after-deleted-constant", f"LoadConst {lop1!r} for constant of type {want_t}"[:300]))
     # std constants are plain (non-frozen) dataclasses: fields assigned after construction count
     if k in ("int", "float", "string"):
         from hugr.std.float import FloatVal
@@ -110,6 +135,8 @@ def is_collection(v) -> bool:
 
 
 SUBS = [
+    Sub("values-after-churn", check, strategy=lambda tier: st.tuples(asts.values(2), asts.values(1)).map(lambda t: {"v": t[0], "v0": t[1]}),
+        nontrivial=lambda c: ref.enc_type(ref.ref_typeof(c["v"])) != ref.enc_type(ref.ref_typeof(c["v0"])), classes=lambda c: [c["v"]["k"]], n_quick=300, n_thorough=3000),
     Sub("values", check, fuzz_runs=2000, strategy=lambda tier: asts.values(3 if tier == "quick" else 4).map(lambda v: {"v": v}),
         nontrivial=lambda c: depth_of(c["v"]) >= 2 or is_collection(c["v"]), classes=lambda c: [c["v"]["k"]] + (["collection"] if is_collection(c["v"]) else []) + ([f"depth{min(depth_of(c['v']), 5)}"]),
         n_quick=2000, n_thorough=12000),
